@@ -93,6 +93,11 @@ def canon_place(B, pl, depth=0):
         base = ('payload', base[1])
         projs = projs[2:]
         if not projs:
+            # `Ok(x)?` of a literal is x
+            if isinstance(base[1], tuple) and base[1][0] == 'local':
+                d_ = B.single_def(base[1][1])
+                if d_ and d_[0] == 's' and d_[3]['rv']['k'] == 'agg' and d_[3]['rv'].get('var') in ('Ok', 'Some') and len(d_[3]['rv']['ops']) == 1:
+                    return canon(B, d_[3]['rv']['ops'][0], depth + 1)
             return base
     # see through literals: (Ok(x)?) is x, (a, b).1 is b, Some(x) as Some .0 is x - an inlined helper returns its values this way
     for _ in range(6):
